@@ -1,24 +1,27 @@
+import GoCrypt.Driver.State
 import GoCrypt.Driver.Parse
+import GoCrypt.Driver.Dispatch
 
 /-! Line-protocol driver: one operation per line in, one result line out. Core-only (links as an exe). -/
 
 open GoCrypt.Driver
 
-def handlers : List (List String → Option String) := [handleParse]
+def handlers : List Handler := [pureHandler handleParse, handleDispatch]
 
-def step (line : String) : String :=
+def step (st : DState) (line : String) : DState × String :=
   let ws := (line.trimAscii.toString.splitOn " ").filter (· ≠ "")
-  match handlers.findSome? (fun h => h ws) with
+  match handlers.findSome? (fun h => h st ws) with
   | some r => r
-  | none => "bad-op"
+  | none => (st, "bad-op")
 
-partial def loop (h : IO.FS.Stream) (out : IO.FS.Stream) : IO Unit := do
+partial def loop (h : IO.FS.Stream) (out : IO.FS.Stream) (st : DState) : IO Unit := do
   let line ← h.getLine
   if line.isEmpty then return ()
-  out.putStrLn (step line)
-  loop h out
+  let (st, r) := step st line
+  out.putStrLn r
+  loop h out st
 
 def main : IO Unit := do
   let out ← IO.getStdout
-  loop (← IO.getStdin) out
+  loop (← IO.getStdin) out {}
   out.flush
